@@ -227,7 +227,7 @@ var ErrNotQuiescent = fmt.Errorf("no quiescent snapshot within budget")
 // the caller in an active state and the same blocked set.  No verdict is ever
 // derived from the time this takes; running out of budget is an error the
 // caller must report as inconclusive.
-func Quiesce() ([]G, error) { return QuiesceBudget(20000) }
+func Quiesce() ([]G, error) { return QuiesceBudget(4000) }
 
 func QuiesceBudget(polls int) ([]G, error) {
 	self := curGID()
